@@ -105,6 +105,10 @@ class N(object):
         return self.front.text_of(self.j)
 
     @property
+    def ntext(self):
+        return self.front.ntext(self)
+
+    @property
     def bin(self):
         """(opcode, lhs, rhs) of a binary operator, also when clang kept it as a dependent
         CXXOperatorCallExpr (operands of template-dependent type)."""
@@ -143,13 +147,14 @@ class N(object):
             n = d
         return n
 
-    def const_local_init(self):
+    def const_local_init(self, refs=False):
         r = self.j.get('referencedDecl')
         if not r or r.get('kind') != 'VarDecl':
             return None
         t = (r.get('type') or {}).get('qualType') or ''
+        is_const_ref = refs and t.startswith('const ') and t.rstrip().endswith('&') and not t.rstrip().endswith('&&')
         if not (t.startswith('const ') and not t.rstrip().endswith(('*', '&'))) and not t.rstrip().endswith('*const') \
-                and not t.rstrip().endswith('* const'):
+                and not t.rstrip().endswith('* const') and not is_const_ref:
             return None
         decl = self.front.var_decl(r.get('id'))
         if decl is None or not decl.kids or decl.j.get('init') is None:
@@ -296,6 +301,63 @@ class CxxFront(object):
         except OSError:
             return ''
         return ' '.join(s[b['offset']: e['offset'] + e.get('tokLen', 0)].split())
+
+    def _span(self, j):
+        r = j.get('range')
+        if not r:
+            return None
+        b, e = r.get('begin', {}), r.get('end', {})
+        b = b.get('expansionLoc', b)
+        e = e.get('expansionLoc', e)
+        if not b.get('file') or b.get('file') != e.get('file') or 'offset' not in b or 'offset' not in e:
+            return None
+        return b['file'], b['offset'], e['offset'] + e.get('tokLen', 0)
+
+    def ntext(self, n, depth=0, loose=None):
+        """Source text of the node with every reference to a const local (value, const pointer or reference to const, bound once
+        where it is declared) replaced by its initialiser, `(*p).m` written `p->m`, white space removed: hoisting a
+        sub-expression into a named constant and inlining one give the same text."""
+        import re
+        sp = self._span(n.j)
+        if sp is None:
+            return ''
+        f, b, e = sp
+        src = self.source(f)
+        subs = []
+
+        def rec(x):
+            if x.kind == 'DeclRefExpr' and depth < 8:
+                init = x.const_local_init(refs=True)
+                if init is None and loose is not None and x.ref in loose:
+                    init = loose[x.ref]
+                xs = self._span(x.j)
+                if init is not None and xs is not None and xs[0] == f and b <= xs[1] and xs[2] <= e:
+                    subs.append((xs[1], xs[2], '(' + self.ntext(init, depth + 1, loose) + ')'))
+                    return
+            for k in x.kids:
+                rec(k)
+        rec(n)
+        out, pos = [], b
+        for sb, se, rep in sorted(subs):
+            if sb < pos:
+                continue
+            out.append(src[pos:sb])
+            out.append(rep)
+            pos = se
+        out.append(src[pos:e])
+        t = ''.join(out)
+        t = re.sub(r'/\*.*?\*/', ' ', t, flags=re.S)
+        t = re.sub(r'//[^\n]*', ' ', t)
+        t = re.sub(r'\s+', '', t)
+        t = re.sub(r'\(\*((?:[^()]|\((?:[^()]|\([^()]*\))*\))+)\)\.', r'\1->', t)
+        # redundant parentheses around a substituted primary expression: `f((x))`, `((x)).m`
+        prev = None
+        while prev != t:
+            prev = t
+            t = re.sub(r'\(\((\w+(?:<[^()]*>)?\((?:[^()]|\([^()]*\))*\))\)\)', r'(\1)', t)
+            t = re.sub(r'([(,=])\((\*?\w+(?:<[^()<>]*>)?\((?:[^()]|\([^()]*\))*\)(?:->\w+\(\))?)\)([,);])', r'\1\2\3', t)
+            t = re.sub(r'\((\w+(?:<[^()<>]*>)?\((?:[^()]|\([^()]*\))*\))\)->', r'\1->', t)
+        return t
 
     def targ_text(self, n):
         if n.j.get('value') is not None:
